@@ -203,7 +203,7 @@ pub fn check() -> PropertyCheck {
         ],
         subs: vec![Box::new(Pbt {
             name: "wire-e2e",
-            quick: 40_000,
+            quick: 120_000,
             thorough: 2_000_000,
             strat,
             test,
